@@ -37,15 +37,16 @@ theorem inR_init (r : Role) : inR (PS.init r) = true := by
   · exact h.1
   · exact h.2
 
-/-- one step from a certified state: certified again, and all monitor checks hold on its tags -/
+/-- one step from a certified state: certified again, all monitor checks hold on its tags, same role -/
 theorem inR_step {s : PS} (hs : inR s = true) (x : Inp) :
-    inR (stepPS okAll s x).1 = true ∧ (stepPS okAll s x).2 = true := by
+    inR (stepPS okAll s x).1 = true ∧ (stepPS okAll s x).2 = true ∧ (stepPS okAll s x).1.c.role = s.c.role := by
   have hk := CodeTree.find_mem hs
   have h := CodeTree.all_mem closedCheck_ok _ hk
   simp only [certBody, PS.dec_enc] at h
   have h2 := allInp_spec h x
-  simp only [stepPS_norm, Bool.and_eq_true] at h2
-  exact h2
+  simp only [stepPS_norm, Bool.and_eq_true, beq_iff_eq] at h2
+  obtain ⟨⟨a, b⟩, c⟩ := h2
+  exact ⟨a, b, c⟩
 
 /-! ### lifting to event sequences -/
 
@@ -64,6 +65,6 @@ theorem runPS_all {s : PS} (hs : inR s = true) (xs : List Inp) :
     have h := inR_step hs x
     have h2 := ih h.1
     simp only [runPS, Bool.and_eq_true]
-    exact ⟨h2.1, h.2, h2.2⟩
+    exact ⟨h2.1, h.2.1, h2.2⟩
 
 end ShipVerif.Conn
